@@ -108,11 +108,19 @@ def audit_theorems(pid, names, allowed_axioms):
     os.makedirs(WORK, exist_ok=True)
     d = os.path.join(WORK, "audit-%s-%d" % (pid, os.getpid()))
     os.makedirs(d, exist_ok=True)
-    src = ["From Cqos Require Import Properties."]
+    mods = sorted(os.path.basename(f)[:-2] for f in coq_sources() if os.path.basename(f).startswith("Properties"))
+    src = ["From Cqos Require %s." % " ".join(mods)]
+    where = {}
+    for mname in mods:
+        for th in re.findall(r"^Theorem (\w+)", open(os.path.join(COQ, "theories", mname + ".v")).read(), flags=re.M):
+            where[th] = mname
+
+    def qual(n):
+        return "%s.%s" % (where[n], n) if n in where else n
     for n in names:
         src.append('Goal True. idtac "@@BEGIN %s". exact I. Qed.' % n)
-        src.append("Check %s." % n)
-        src.append("Print Assumptions %s." % n)
+        src.append("Check %s." % qual(n))
+        src.append("Print Assumptions %s." % qual(n))
     src.append('Goal True. idtac "@@END". exact I. Qed.')
     open(os.path.join(d, "Audit.v"), "w").write("\n".join(src) + "\n")
     rc, out = sh(["coqc", "-Q", os.path.join(COQ, "theories"), "Cqos", "Audit.v"], cwd=d, timeout=600)
